@@ -719,6 +719,9 @@ class Client:
           and the values are values from the cache. The dict may contain all,
           some or none of the given keys.
         """
+        # keys may be a one-shot iterable: it is tested, validated and mapped
+        # back to the results, so materialize it once.
+        keys = list(keys)
         if not keys:
             return {}
 
@@ -780,6 +783,7 @@ class Client:
           the values are tuples of (value, cas) from the cache. The dict may
           contain all, some or none of the given keys.
         """
+        keys = list(keys)
         if not keys:
             return {}
 
